@@ -107,7 +107,22 @@ impl<'a> Interp<'a> {
             let mut pats: Vec<String> = c.get_personal_access_tokens().await.map_err(|e| ("get_personal_access_tokens".to_string(), e))?.into_iter().map(|p| p.name).collect();
             pats.sort();
             let stats = c.get_stats().await.map_err(|e| ("get_stats".to_string(), e))?;
-            Ok(json!({"streams":sv,"users":uv,"pats":pats,
+            // the client-side view of group memberships (what get_client reports for each member connection)
+            let mut clv = vec![];
+            if let Some(admin) = self.tcp.as_ref() {
+                for (idx, ec) in &self.extra {
+                    let me = ec.get_me().await.map_err(|e| (format!("get_me(member connection {idx})"), e))?;
+                    let info = admin
+                        .get_client(me.client_id)
+                        .await
+                        .map_err(|e| (format!("get_client({})", me.client_id), e))?
+                        .ok_or_else(|| (format!("get_client({}) -> none for an open connection", me.client_id), IggyError::ResourceNotFound(String::new())))?;
+                    let mut ms: Vec<(u32, u32, u32)> = info.consumer_groups.iter().map(|g| (g.stream_id, g.topic_id, g.group_id)).collect();
+                    ms.sort();
+                    clv.push(json!({"id":idx,"memberships":ms,"memberships_count":info.consumer_groups_count,"own_view_count":me.consumer_groups_count}));
+                }
+            }
+            Ok(json!({"streams":sv,"users":uv,"pats":pats,"clients":clv,
                 "stats":{"streams":stats.streams_count,"topics":stats.topics_count,"partitions":stats.partitions_count,
                          "groups":stats.consumer_groups_count,"messages":stats.messages_count}}))
         });
@@ -161,7 +176,24 @@ impl<'a> Interp<'a> {
             uv.push(json!({"id":u.id,"username":u.name,"active":u.active,"listed_active":u.active,"perms":perms,"by_name":bn}));
         }
         let pats: Vec<String> = self.pats.keys().cloned().collect();
-        json!({"streams":sv,"users":uv,"pats":pats,
+        let mut clv = vec![];
+        if self.tcp.is_some() {
+            for idx in self.extra.keys() {
+                let mut ms: Vec<(u32, u32, u32)> = vec![];
+                for s in self.streams.values() {
+                    for t in s.topics.values() {
+                        for g in t.groups.values() {
+                            if g.members.contains(idx) {
+                                ms.push((s.id, t.id, g.id));
+                            }
+                        }
+                    }
+                }
+                ms.sort();
+                clv.push(json!({"id":idx,"memberships":ms,"memberships_count":ms.len(),"own_view_count":ms.len()}));
+            }
+        }
+        json!({"streams":sv,"users":uv,"pats":pats,"clients":clv,
             "stats":{"streams":self.streams.len(),"topics":nt,"partitions":np,"groups":ng,"messages":nm}})
     }
 
